@@ -74,6 +74,7 @@ type Cfg struct {
 	Missing     []string `json:"missing"`     // (informational)
 	FaultLoad   string   `json:"faultload"`   // template name whose Load fails with the sentinel
 	FrontLoader bool     `json:"frontloader"` // an empty ArrayLoader is registered before the real one
+	SelfPanic   bool     `json:"selfpanic"`   // binding self-test: the harness panics where the engine would, and must report it
 }
 
 type Case struct {
@@ -317,6 +318,9 @@ func renderRun(c *Case, r *Run, ctx map[string]interface{}) (o obs) {
 		}
 	}()
 	e := twig.New()
+	if c.Cfg.SelfPanic {
+		panic("verif self-test panic")
+	}
 	registerSpies(e, st)
 	if c.Cfg.Sandbox {
 		e.EnableSandbox(makePolicy(c.Cfg))
